@@ -100,6 +100,10 @@ Theorem C13_segmentation_invariant : forall pending a b,
   if closed f1 then f = f1 else (f = f1 ++ f2 /\ r = r2).
 Proof. exact feed_split. Qed.
 
+(* a received line is ONE line: no framed line contains LF (and one trailing CR is stripped) *)
+Theorem C13_received_lines_have_no_lf : forall pending seg l, In (FLine l) (fst (feed pending seg)) -> nolf l.
+Proof. exact framed_lines_nolf. Qed.
+
 (* an over-long line is reported as such and never as a line: no part of it is executed *)
 Theorem C13_overlong_not_executed : forall ls l rest,
   (length l > max_len)%nat -> Forall (fun x => (length x <= max_len)%nat) ls ->
@@ -148,3 +152,4 @@ Print Assumptions C13_empty_ignored.
 Print Assumptions C13_error_numerics.
 Print Assumptions C13_segmentation_invariant.
 Print Assumptions C13_overlong_not_executed.
+Print Assumptions C13_received_lines_have_no_lf.
